@@ -219,9 +219,40 @@ def base_game(spec):
             pred = g.integers(0, 17, size=(A, B, X, Y)).astype(np.float64) / 16.0
         elif fam == "float":
             pred = g.random((A, B, X, Y))
+        elif fam == "planted":
+            # one pair of answer functions (f*, g*) wins every question pair; any other answer earns at most `leak`.
+            # With strictly positive question probabilities (f*, g*) is the unique optimum (value exactly the total
+            # weight), so an enumeration that skips a single function of either player - the first, the last, one in
+            # the last partial block of a chunked loop - returns a smaller value.  Added after seeded change C07-b1
+            # (pool branch evaluating only num_iterations // 256 full blocks) was missed by random predicates, whose
+            # optimum is attained by many strategies.
+            leak = float(spec.get("leak", 0.0))
+            pred = np.round(g.random((A, B, X, Y)) * 16) / 16.0 * leak
+            f_star, g_star = planted_functions(spec)
+            for x in range(X):
+                for y in range(Y):
+                    pred[f_star[x], g_star[y], x, y] = 1.0
         else:
             raise HarnessError(f"unknown family {fam}")
     return _probs(spec, X, Y), pred
+
+
+def planted_functions(spec):
+    A, B, X, Y = (int(v) for v in spec["shape"])
+    g = gen.rng(int(spec["seed"]) ^ 0x5EED)
+
+    def pick(kind, n_out, n_in):
+        if kind == "first":
+            return [0] * n_in
+        if kind == "last":
+            return [n_out - 1] * n_in
+        if kind == "lastbut":  # the last function with one digit lowered: inside the final block of any chunking
+            f = [n_out - 1] * n_in
+            f[int(g.integers(n_in))] = max(0, n_out - 2)
+            return f
+        return [int(v) for v in g.integers(0, n_out, size=n_in)]
+
+    return pick(spec.get("f_pos", "random"), A, X), pick(spec.get("g_pos", "random"), B, Y)
 
 
 def is_dyadic(spec):
